@@ -319,6 +319,14 @@ pub fn zst(kind: u64) -> Vec<u64> {
             drop(a);
             drop(b);
         }
+        // a header with a destructor handed to a constructor that refuses (the layout of the requested length cannot be
+        // represented): the unwinding constructor destroys it, once
+        17 => {
+            let _ = UniqueArc::<HeaderSlice<ZTok, [MaybeUninit<u64>]>>::from_header_and_uninit_slice(ZTok, usize::MAX / 2);
+        }
+        18 => {
+            let _ = UniqueArc::<HeaderSlice<ZTok, [MaybeUninit<u8>]>>::from_header_and_uninit_slice(ZTok, isize::MAX as usize - 7);
+        }
         _ => {
             let a = Arc::new(ZTok);
             let mut o = Arc::into_raw_offset(a.clone());
@@ -338,13 +346,15 @@ pub fn zst(kind: u64) -> Vec<u64> {
     let bad = evs.iter().filter(|e| matches!(e, Ev::BadDtor { .. } | Ev::BadRead { .. } | Ev::BadDealloc { .. } | Ev::UnknownDealloc { .. } | Ev::Overrun { .. })).count() as u64;
     let dt = evs.iter().filter(|e| matches!(e, Ev::Dtor { .. })).count() as u64;
     // (for the copy-on-write kinds the sixth number is the number of Clone calls)
-    let sixth = if kind >= 15 { ZCLONES.load(SeqCst) } else { dt };
-    vec![r.is_err() as u64, SEP, SEP, during, ZDROPS.load(SeqCst), sixth, bad + wrong_counts, allocs.wrapping_sub(deallocs)]
+    let sixth = if kind == 15 || kind == 16 { ZCLONES.load(SeqCst) } else { dt };
+    // (a caught panic still owns its payload: allocations are not balanced then, and are not reported)
+    let outstanding = if r.is_err() { 0 } else { allocs.wrapping_sub(deallocs) };
+    vec![r.is_err() as u64, SEP, SEP, during, ZDROPS.load(SeqCst), sixth, bad + wrong_counts, outstanding]
 }
 
 pub fn run1(kind: u64, n: usize, k: u64) -> Vec<u64> {
     if kind >= 28 {
-        return if kind < 45 && n == 0 && k == 0 { zst(kind - 28) } else { vec![98] };
+        return if kind < 47 && n == 0 && k == 0 { zst(kind - 28) } else { vec![98] };
     }
     if kind >= 24 {
         return if kind < 28 && n == 0 && k == 0 { plain(kind - 24) } else { vec![98] };
